@@ -175,12 +175,17 @@ type c04Case struct {
 	Tampers []string
 }
 
+func persistable(err error) bool {
+	ve, ok := err.(gmsl.EventValidationError)
+	return ok && ve.Persistable
+}
+
 func runCase(r *harness.Run, c c04Case) error {
 	r.Eval()
 	row := refversions.Get(c.Version)
 	ver := gmsl.MustGetRoomVersion(gmsl.RoomVersion(c.Version))
 	orig, err := evalpha.Build(c.Version, c.Proto)
-	if err != nil {
+	if err != nil && !(persistable(err) && orig != nil) {
 		return fmt.Errorf("Build: %v", err)
 	}
 	origID := orig.EventID()
@@ -222,8 +227,20 @@ func runCase(r *harness.Run, c c04Case) error {
 	if p, msg := harness.Try(func() { ev, err = ver.NewEventFromUntrustedJSON(text) }); p {
 		return fmt.Errorf("NewEventFromUntrustedJSON panics: %s", msg)
 	}
-	if err != nil {
+	if err != nil && !(persistable(err) && ev != nil) {
 		return fmt.Errorf("NewEventFromUntrustedJSON fails on %s: %v", text, err)
+	}
+	if err != nil {
+		// an event with a "persistable" size complaint (a field within 255 code points but over 255 bytes) is handed back
+		// together with the error and kept by callers such as EventJSONs.UntrustedEvents: everything below applies to it
+		r.Outcome("kept-with-persistable-error")
+		kept := gmsl.EventJSONs{text}.UntrustedEvents(gmsl.RoomVersion(c.Version))
+		if len(kept) != 1 || kept[0] == nil {
+			return fmt.Errorf("UntrustedEvents dropped an event the parser reports as persistable (%v)", err)
+		}
+		if !bytes.Equal(kept[0].JSON(), ev.JSON()) || kept[0].Redacted() != ev.Redacted() {
+			return fmt.Errorf("UntrustedEvents and NewEventFromUntrustedJSON disagree on a persistable event: %s / %s", kept[0].JSON(), ev.JSON())
+		}
 	}
 	if ev.Redacted() != mismatch {
 		return fmt.Errorf("Redacted() = %v but reference content hash mismatch = %v (tamperings %v)", ev.Redacted(), mismatch, c.Tampers)
@@ -404,6 +421,18 @@ func run(r *harness.Run) {
 		}
 		for _, p := range ps {
 			jobs = append(jobs, job{v, p})
+		}
+		// fields within 255 code points but over 255 bytes: the event is returned together with a "persistable" error
+		wide := strings.Repeat("\u00e9", 130)
+		for _, p := range ps {
+			if p.Type == "m.room.message" && (p.Depth == 1 || p.Depth == 2) && p.Unsigned == "" && p.Signer == 0 && len(p.Prev) == 1 && len(p.Auth) == 1 && p.PreSig == "" {
+				a, b, c := p, p, p
+				a.Type = wide
+				b.Type, b.StateKey = "org.example.state", &wide
+				c.Sender = "@" + wide[:250] + ":a.org"
+				jobs = append(jobs, job{v, a}, job{v, b}, job{v, c})
+				break
+			}
 		}
 	}
 	r.Parallel(len(jobs), func(i int) {
